@@ -1,4 +1,4 @@
-BASELINE_CMD = "cd /repo && cargo nextest run --workspace --no-fail-fast --test-threads 8 --offline || cargo test --workspace --no-fail-fast --offline"
+BASELINE_CMD = "cd /repo && cargo nextest run --workspace --no-fail-fast --tool-config-file pb:/w/lib/nextest.toml --profile pb --test-threads 8 --offline"
 NOTES = ("Contract-based deductive verification: every claimed check extracts the real functions from /repo on each run, "
          "splices contracts from /verif/units/<unit>/unit.py, and lets Verus discharge every obligation. Exit 0 pass / 1 VIOLATION / 2 undecided "
          "(lost anchor, tool limit; never an alarm). See DESIGN.md.")
@@ -12,6 +12,10 @@ CLAIMED = {
         design_ref='§5 C13', technique='Verus function contracts on extracted code, completion universally quantified',
         note="Trusted: as C01. Not covered: the residual-producing arms of the evaluator, reauthorize/concretize_request, Entities::partial."),
 }
+CLAIMED['C14'] = dict(
+    text="tpe::Response is proved by Verus on the extracted code: Response::new partitions the residual policies into the eight (effect x class) buckets and an id->residual map (loop invariant, unbounded), its decision table is sound for every completion of the still-partial residuals and definite when none is partial; every view (bucket accessors, get_residual_policy, policies, policy_set, reason) presents exactly those residual policies, and From<ResidualPolicy> for Policy keeps effect, id and annotations of the original with the residual as condition; Residual::is_true/is_false/is_error/is_concrete/is_partial classify as specified.",
+    design_ref='§5 C14', technique='Verus function contracts + loop invariants on extracted code; completion universally quantified',
+    note="Trusted: Verus/Z3, std model, Policy::from_when_clause_annos and accessors, From<Residual> for Expr (opaque), PolicySet::{new,add} contract. Not covered: tpe::Evaluator::interpret simplification rules, consistency checks, query_* in api/tpe.rs, reauthorize's validation steps.")
 NOT_APPLICABLE = {
     'C02': 'in progress: evaluator units not yet built',
     'C03': 'strict-validation soundness relates two multi-thousand-line recursive functions over all programs x environments; no function contract within reach implies it (DESIGN §6)',
@@ -24,7 +28,6 @@ NOT_APPLICABLE = {
     'C10': 'serde-driven, expected-type directed JSON parsing; the round trip is not expressible as a contract on functions within reach (DESIGN §6)',
     'C11': 'in progress',
     'C12': 'pretty-printer combinators over rendered text; outside contract reasoning (DESIGN §6)',
-    'C14': 'in progress',
     'C15': 'in progress',
     'C16': 'in progress',
     'C17': 'soundness of a static analysis for all programs x stores; slicing functions alone do not state the property (DESIGN §6)',
